@@ -183,7 +183,8 @@ def run(chk, tier, seed, replay=None):
                          'choice': choice_table(s, need, maxn) if s is not None else [],
                          'given': str(s) if s is not None else '', 'obs': obs})
             meta[rid] = (w, grp, s)
-    chk.sample({'world': bundles[1][0], 'seed': bundles[1][2], 'runs': [(r['mode'], r['args']) for r in bundles[1][1]]})
+    sb = bundles[min(1, len(bundles) - 1)]
+    chk.sample({'world': sb[0], 'seed': sb[2], 'runs': [(r['mode'], r['args']) for r in sb[1]]})
     fd, path = tempfile.mkstemp(prefix='verif-shuf-', suffix='.json')
     with os.fdopen(fd, 'w') as f:
         json.dump(recs, f)
